@@ -14,6 +14,7 @@ var findings = []struct{ fp, avoid string }{
 	{"C02:tombstone-on-marked-target-subtracts-payload-twice", "ts-on-marked"},
 	{"C02:resync-counts-payload-of-redundant-marked-objects", "mark-redundant"},
 	{"C02:resync-gc-counts-marks-of-absent-objects", "ts-nonphysical"},
+	{"C02:tombstone-keeps-payload-of-link-objects", "ts-link"},
 }
 
 // applyKnown excludes, by construction, the history classes of findings that
